@@ -135,6 +135,15 @@ def aggregate_records(sid, ctxname, bound, rng):
     ns = [P[0] * P[1], P[0] * P[2], P[1] * P[3], P[2] * P[3]]
   elif ctxname == 'alone':
     ns = [P[0] * P[1]]
+  elif ctxname == 'even-np1-shared':
+    g = art.rand_prime(rng, 200)
+    def ev():
+      while True:
+        k = rng.getrandbits(2048 - 200) | (1 << (2047 - 200)) | 1
+        n_ = g * k - 1
+        if n_.bit_length() == 2048 and n_ % 2 == 0:
+          return n_
+    ns = [ev(), ev(), P[0] * P[1], ev()]
   else:
     g = art.rand_prime(rng, 200 if ctxname == 'n1-shared-big' else 40)
     def pp():
